@@ -17,6 +17,7 @@ import (
 	"fmt"
 	"io"
 	"math/rand"
+	"net/http"
 	"os"
 	"sort"
 	"strconv"
@@ -373,11 +374,11 @@ func randomCase(rng *rand.Rand, tier string) M {
 			wacc = -1
 		}
 		cfg := M{"codec": codec, "content": streamkit.Blob(sc.Content), "term": sc.Term, "ekind": ekind,
-			"rkind": []string{"reader", "readcloser"}[rng.Intn(2)], "closeOpt": codec == "bytes" && rng.Intn(2) == 0,
+			"rkind": []string{"reader", "readcloser", "peeked", "peeked"}[rng.Intn(4)], "closeOpt": codec == "bytes" && rng.Intn(2) == 0,
 			"dst": dst, "pre": rng.Intn(2) == 0 && (dst[0] == 'p' || dst[0] == 'a'), "wacc": wacc, "uerr": false}
 		return M{"kind": "consume", "cfg": cfg, "origin": "rand", "gen": g}
 	}
-	srcs := []string{"writerto", "wtreader", "wtreadcloser", "reader", "readcloser", "binm", "error", "bytes", "string", "pbytes", "pstring", "nbytes", "nstring"}
+	srcs := []string{"writerto", "wtreader", "wtreadcloser", "reader", "readcloser", "seekreader", "binm", "error", "bytes", "string", "pbytes", "pstring", "nbytes", "nstring"}
 	if codec == "text" {
 		srcs = []string{"textm", "error", "stringer", "string", "pstring", "nstring"}
 	}
@@ -467,6 +468,16 @@ func execConsume(c *drv.Ctx, d, cfg M) bool {
 	case "readcloser":
 		rc = streamkit.NewReadCloser(sc)
 		reader = rc
+	case "peeked":
+		// the request body as runtime.HasBody leaves it (no declared length: wrapped in a peeking reader)
+		rc = streamkit.NewReadCloser(sc)
+		req, err := http.NewRequest(http.MethodPost, "http://verif.invalid/c15", nil)
+		if err != nil {
+			panic(err)
+		}
+		req.Body, req.ContentLength = rc, -1
+		runtime.HasBody(req)
+		reader = req.Body
 	case "nil":
 		reader = nil
 	}
@@ -596,6 +607,13 @@ func execProduce(c *drv.Ctx, d, cfg M) bool {
 	case "readcloser":
 		s := streamkit.NewReadCloser(sc)
 		src, scloses = s, func() int { return s.Closes }
+	case "seekreader":
+		// a seekable payload the caller has already read a preamble from: the source bytes are the rest
+		rd := bytes.NewReader(append([]byte("PREAMBLE-"), content...))
+		if _, err := io.CopyN(io.Discard, rd, int64(len("PREAMBLE-"))); err != nil {
+			panic(err)
+		}
+		src = rd
 	case "binm":
 		src = binM{b: content, fail: drv.Bool(cfg["merr"])}
 	case "textm":
